@@ -88,6 +88,11 @@ def gen_spec(rng, target, depth=0):
     """literal spec (python value) following the target's shape"""
     keys = [k for k in target] if isinstance(target, dict) else []
     r = rng.random()
+    if rng.random() < 0.04:
+        # literals that are not specs: the library fails with a wrapped non-glom exception (IndexError
+        # for [], TypeError for a number / None), which is a GlomError all the same
+        # (at the top level only []: in the default format a bare number is taken as a path string)
+        return rng.choice([[], 1, None, 2.5]) if depth else []
     if depth >= 2 or r < 0.35:
         if keys and rng.random() < 0.85:
             k = rng.choice(keys)
@@ -183,6 +188,8 @@ def gen_case(seed, tier):
     target = gen_target(rng, fmt)
     mode = rng.choice(['plain', 'plain', 'plain', 'fault', 'fault', 'hostile', 'empty', 'falsy'])
     spec = gen_spec(rng, target)
+    if not isinstance(spec, (str, dict, list, tuple)):
+        spec = []           # (a bare number / None as the whole spec text would be read as a path string)
     if mode == 'falsy':
         # a falsy TOP-LEVEL document is a target like any other
         fmt = rng.choice(['json', 'yaml', 'python', 'yaml'])
@@ -199,7 +206,9 @@ def gen_case(seed, tier):
             'target_channel': rng.choice(['argv', 'file', 'stdin-dash', 'stdin-implicit', 'file-dash']),
             'indent': rng.choice([None, None, 0, 2, 4]), 'scalar': rng.random() < 0.25, 'mode': mode,
             'real_subprocess': seed % (200 if tier == 'quick' else 60) == 0,
-            'knobs': simrun.draw_knobs(rng)}
+            'knobs': simrun.draw_knobs(rng),
+            'spec_file_name': rng.choice(['/sim/spec.txt', '/sim/spec.txt', '/sim/spec.py', '/sim/spec.json',
+                                          '/sim/spec.glom', '/sim/spec', '/sim/SPEC.PY', '/sim/spec.yaml'])}
     if case['real_subprocess']:
         case['knobs']['trace_width'] = 78       # what a real process without a terminal gets
     if mode == 'fault':
@@ -375,15 +384,17 @@ def build_invocation(case):
     if case.get('empty') in ('target-empty-file', 'stdin-empty'):
         target_text = ''
     posargs = []
+    # (what a spec file is called never decides how its text is read: the format is --spec-format)
+    sname = case.get('spec_file_name', '/sim/spec.txt')
     if case['spec_channel'] == 'file' and not no_spec:
-        argv += ['--spec-file', '/sim/spec.txt']
-        files['/sim/spec.txt'] = spec_text
+        argv += ['--spec-file', sname]
+        files[sname] = spec_text
         if sfault in ('enoent', 'eacces'):
-            errors['/sim/spec.txt'] = sfault
+            errors[sname] = sfault
         elif sfault == 'eio_read':
-            read_faults['/sim/spec.txt'] = 'eio'
+            read_faults[sname] = 'eio'
         elif sfault == 'undecodable':
-            files['/sim/spec.txt'] = b'\xff\xfe' + spec_text.encode()
+            files[sname] = b'\xff\xfe' + spec_text.encode()
     elif not no_spec:
         posargs.append(spec_text)
     ch = case['target_channel']
